@@ -492,11 +492,72 @@ def check_reader(chk) -> None:
             chk.error("null-agreement", fi.where, "how blank optional PDB fields are read could not be established (line loop not evaluable, pinned form not found)")
 
 
+class _Relabel:
+    """A view of the check that records a sibling property's rule under this property's rule id (only the listed rules)."""
+
+    def __init__(self, chk, rules: Dict[str, str]):
+        self._chk, self._rules = chk, rules
+        self.repo, self.robust = chk.repo, chk.robust
+
+    def _r(self, rule: str) -> Optional[str]:
+        return self._rules.get(rule)
+
+    def note_function(self, fi) -> None:
+        self._chk.note_function(fi)
+
+    def ok(self, rule, site, detail):
+        if self._r(rule):
+            self._chk.ok(self._r(rule), site, detail)
+
+    def error(self, rule, site, detail):
+        if self._r(rule):
+            self._chk.error(self._r(rule), site, detail)
+
+    def violation(self, rule, site, detail, key, expected=None, found=None):
+        if self._r(rule):
+            self._chk.violation(self._r(rule), site, detail, key, expected=expected, found=found)
+
+    def expect(self, cond, rule, site, detail_ok, detail_bad, key, expected=None, found=None):
+        if self._r(rule):
+            return self._chk.expect(cond, self._r(rule), site, detail_ok, detail_bad, key, expected=expected, found=found)
+        return bool(cond)
+
+
+def _cross_path_fit(chk) -> None:
+    """The cross path mmCIF -> PDB of the observation point goes through fit_to_pdb, which leaves a table alone exactly when
+    can_write_pdb accepts it.  "Identity whenever the data fit PDB field widths" therefore needs the fit test to accept every table
+    within the widths of the writer's fields (a stricter test sends a fitting table into the renumbering: serials, chains, numbers change)
+    and to reject every other one (over-wide fields).  Decided by C10's reading of can_write_pdb (paths, limits against the folded widths)."""
+    from checks import c10
+
+    chk.robust.add("cross-path-fit")
+    try:
+        c10.check_can_write(_Relabel(chk, {"fit-test": "cross-path-fit"}))
+    except AnalysisError:
+        raise
+    except Exception as ex:
+        chk.error("cross-path-fit", "-", f"reading of can_write_pdb failed internally ({type(ex).__name__}: {str(ex)[:60]})")
+
+
 def check_splitter(chk) -> None:
     """splitter.main (observe point): every model goes through fit_to_pdb -> write_pdb, or write_cif, with the input's format tag."""
     repo = chk.repo
     fi = repo.func("splitter", "main")
     chk.note_function(fi)
+    from checks import c10w
+
+    # facts read along the paths to the writers (whatever the shape of the decision): fitted before written as PDB, split by the
+    # model column, every group tagged with the input format; the pinned form below is the fallback when the paths are not readable
+    decided = False
+    try:
+        decided = c10w.check_fit_before_write(chk, [("splitter", "main")]) and c10w.check_split_by_model(chk)
+    except AnalysisError:
+        raise
+    except Exception as ex:
+        chk.ok("write-paths", fi.where, f"path reading of splitter.main failed internally ({type(ex).__name__}: {str(ex)[:60]}): the pinned form decides")
+    _cross_path_fit(chk)
+    if decided:
+        return
     loops = [l for l in ast.walk(fi.node) if isinstance(l, ast.For) and norm(l.iter) == "grouped_by_model"]
     gb = astq.first_assign(fi.node, "grouped_by_model")
     ok = len(loops) == 1 and gb is not None and norm(gb) == "atoms_df.groupby(model_column)"
@@ -538,6 +599,9 @@ def run(chk) -> None:
     check_splitter(chk)
     for rule, n in (("writer-layout", 17), ("writer-reader-columns", 15), ("ter-line", 5), ("record-order", 6), ("field-map-pdb-to-cif", 2), ("field-map-cif-to-pdb", 1), ("value-domain", 1)):
         chk.floor(rule, n)
+    from sa import memoshare
+
+    memoshare.check(chk, "C09")  # a memoised function must not hand one mutable object to every caller
 
 
 MANIFEST_ENTRY = {
